@@ -307,6 +307,41 @@ fn fqz_cases(max_len: usize, nfam: usize, big: &[Vec<usize>]) -> Vec<FqzCase> {
     out
 }
 
+fn fqz_zero_cases(max_len: usize) -> Vec<FqzCase> {
+    fn rec(rest: usize, parts_left: usize, cur: &mut Vec<usize>, out: &mut Vec<Vec<usize>>) {
+        if rest == 0 && !cur.is_empty() {
+            out.push(cur.clone());
+        }
+        if parts_left == 0 {
+            return;
+        }
+        for first in 0..=rest {
+            cur.push(first);
+            rec(rest - first, parts_left - 1, cur, out);
+            cur.pop();
+        }
+    }
+    let mut out = Vec::new();
+    for n in 0..=max_len {
+        let mut lists = Vec::new();
+        rec(n, 4, &mut Vec::new(), &mut lists);
+        lists.retain(|l| l.contains(&0));
+        lists.sort();
+        lists.dedup();
+        for (name, f, body) in QUAL_FAMILIES.iter().skip(2).take(2) {
+            let quals: Vec<u8> = (0..n).map(f).collect();
+            for lens in &lists {
+                out.push(FqzCase {
+                    quals: quals.clone(),
+                    lens: lens.clone(),
+                    expr: format!("lens = vec!{lens:?}; quals = (0..{n}usize).map(|i| {body}).collect::<Vec<u8>>() /* {name} */"),
+                });
+            }
+        }
+    }
+    out
+}
+
 fn fqz_harness(ctx: &mut Ctx, name: &str, cases: &[FqzCase]) {
     if skip(name) {
         return;
@@ -374,6 +409,9 @@ fn name_alphabet(thorough: bool) -> Vec<Vec<u8>> {
         v.push(b"a4294967295".to_vec());
         v.push(b"a4294967296".to_vec());
         v.push(b"a00000000001".to_vec());
+        // more tokens than the format's 128 token positions
+        v.push(std::iter::repeat_n(*b"a:", 70).flatten().collect());
+        v.push(std::iter::repeat_n(*b"a:", 62).flatten().collect());
     }
     v
 }
@@ -541,14 +579,47 @@ fn main() {
             bytes_harness(ctx, "bytes_len64k", &big2, &rans);
         }
 
+        // (3b) beyond DESIGN.md's list, from a constant visible in the code: the normalisers compute
+        // `count * 4095` / `count * 4096` in u32, which overflows from 2^32/4096 + 1 = 1_048_577
+        // occurrences of one symbol (a 10 240-record slice of 150-base reads has 1.5 M quality values)
+        if !quick {
+            let mut huge = Vec::new();
+            let l = (1usize << 20) + 2048;
+            for name in ["one(65)", "skew(65,66)", "alt(65,66)"] {
+                let f = corpus::FAMILIES.iter().find(|f| f.name == name).unwrap();
+                huge.push(corpus::family_item(f, l));
+            }
+            let confs: Vec<Conf> = vec![
+                Conf::R4x8(false),
+                Conf::R4x8(true),
+                Conf::Nx16(0),
+                Conf::Nx16(0x01),
+                Conf::Nx16(0x04),
+                Conf::Nx16(0x08),
+                Conf::Nx16(0x40),
+                Conf::Nx16(0x80),
+                Conf::Nx16(0xc5),
+                Conf::Aac(0),
+                Conf::Aac(0x01),
+                Conf::Aac(0x40),
+                Conf::Aac(0x80),
+            ];
+            bytes_harness(ctx, "bytes_1m", &huge, &confs);
+        }
+
         // (4) fqzcomp
         let big_lens: Vec<Vec<usize>> = vec![
             vec![127], vec![128], vec![129], vec![255], vec![256], vec![257], vec![1023], vec![1024], vec![1025],
             vec![129, 129], vec![128, 129], vec![129, 128], vec![1025, 3], vec![3, 1025], vec![300, 300, 300],
             vec![65535], vec![65536], vec![65537], vec![65536, 1],
         ];
-        let fq = fqz_cases(ctx.by_tier(12, 20), ctx.by_tier(5, 8), &big_lens);
+        let fq = fqz_cases(ctx.by_tier(10, 20), ctx.by_tier(4, 8), &big_lens);
         fqz_harness(ctx, "fqzcomp", &fq);
+        // record lists with zero-length records (a slice may hold reads without bases/qualities; the
+        // decoder returns the flat quality string, so such records carry no data): every sequence of
+        // <= 4 non-negative lengths with at least one zero
+        let fqz0 = fqz_zero_cases(ctx.by_tier(4, 7));
+        fqz_harness(ctx, "fqzcomp_zero", &fqz0);
 
         // (5) name tokenizer
         // lists of <= 3 names never give the tokenizer a token stream of >= 4 bytes to entropy-code
